@@ -2099,6 +2099,8 @@ class AV:
                 return ("call", "isinstance", args, ())
             if name in ("indent", "dedent"):
                 return self._textwrap(name, args, kw)
+            if name == "getattr" and len(args) == 2 and not kw and args[1][0] == "c" and isinstance(args[1][1], str) and args[1][1].isidentifier():
+                return _attr(args[0], args[1][1])  # getattr(x, 'name') is x.name
             if name in ("range", "zip", "enumerate", "reversed", "sorted", "map", "filter", "sum", "min", "max", "any", "all", "int", "float", "bool", "repr", "abs", "round", "type", "getattr", "hasattr", "iter", "next", "set", "frozenset"):
                 if name == "range" and len(args) == 2 and args[0] == C(0):
                     args = (args[1],)
